@@ -51,10 +51,11 @@ def ensure_facts(config="default"):
     """Return directory with <crate>.json facts for the current /repo tree."""
     ensure_driver()
     os.makedirs(os.path.join(CACHE, "facts"), exist_ok=True)
-    lock = open(os.path.join(CACHE, "facts.lock"), "w")
+    h = tree_hash()
+    # one lock per tree state: checks of the same tree share one generation, different trees generate in parallel
+    lock = open(os.path.join(CACHE, "facts-%s-%s.lock" % (h, config)), "w")
     fcntl.flock(lock, fcntl.LOCK_EX)
     try:
-        h = tree_hash()
         d = os.path.join(CACHE, "facts", h + "-" + config)
         if os.path.exists(os.path.join(d, "OK")):
             return d
@@ -63,8 +64,15 @@ def ensure_facts(config="default"):
         # keep the cache small: drop older entries
         base = os.path.join(CACHE, "facts")
         olds = sorted((os.path.getmtime(os.path.join(base, x)), x) for x in os.listdir(base))
-        for _, x in olds[:-6]:
-            shutil.rmtree(os.path.join(base, x), ignore_errors=True)
+        for _, x in olds[:-24]:
+            if not x.endswith(".tmp"):
+                shutil.rmtree(os.path.join(base, x), ignore_errors=True)
+        for lf in os.listdir(CACHE):
+            if lf.startswith("facts-") and lf.endswith(".lock") and time.time() - os.path.getmtime(os.path.join(CACHE, lf)) > 3600:
+                try:
+                    os.remove(os.path.join(CACHE, lf))
+                except OSError:
+                    pass
         tmp = d + ".tmp"
         if os.path.exists(tmp):
             shutil.rmtree(tmp)
